@@ -207,6 +207,16 @@ class StereoMolGraph(MolGraph):
         """
         del self._bond_stereo[Bond(bond)]
 
+    def remove_bond(self, atom1: AtomId, atom2: AtomId):
+        """Removes the bond between atom1 and atom2 together with the
+        stereo information of that bond.
+
+        :param atom1: Atom1
+        :param atom2: Atom2
+        """
+        super().remove_bond(atom1, atom2)
+        self._bond_stereo.pop(Bond((atom1, atom2)), None)
+
     def remove_atom(self, atom: int):
         """Removes an atom from the graph and deletes all chiral information
         associated with it
